@@ -30,6 +30,13 @@ var (
 	// re-election of an expired RFC 9520 failure probe. The limit belongs to
 	// one request cohort and must never create shared failure-cache state.
 	ErrFailureProbeLimit = errors.New("failure probe retry limit exceeded")
+
+	// ErrResolutionCapacity identifies a lookup this server refused because
+	// one of its own in-flight ceilings was reached (load shedding). It says
+	// nothing about the authorities' health: the refusal belongs to the
+	// request that met the full pool and must never create shared
+	// failure-cache state for the clients that come after it.
+	ErrResolutionCapacity = errors.New("resolution capacity exceeded")
 )
 
 // ResolutionAttemptLimitError records the tuple rejected by the RFC 9520
@@ -412,6 +419,7 @@ func IsRequestLocalResolutionError(err error) bool {
 	return errors.Is(err, ErrRecursionWorkLimit) ||
 		errors.Is(err, ErrResolutionAttemptLimit) ||
 		errors.Is(err, ErrFailureProbeLimit) ||
+		errors.Is(err, ErrResolutionCapacity) ||
 		errors.Is(err, ErrMaxRecursion) ||
 		errors.Is(err, context.Canceled) ||
 		errors.Is(err, context.DeadlineExceeded)
